@@ -24,6 +24,7 @@ type SyncPlan struct {
 	BuildVers []int64           `json:"buildvers,omitempty"`
 	RepairVer int64             `json:"repairver,omitempty"`
 	Extra     bool              `json:"extra,omitempty"` // donor also holds unrelated nodes
+	Via       string            `json:"via,omitempty"`   // repair mechanism: "mergestate" / "mergedb" ("" = rotate)
 }
 
 type posNode struct {
@@ -287,6 +288,9 @@ func RunSync(w *tr.Writer, st *SyncStats, tid int, plan SyncPlan, rnd *rand.Rand
 		ev["warmed"] = warmed
 		// the two repair mechanisms: MergeDB through the trie, or MergeState straight into its store
 		viaState := tid%5 >= 3
+		if plan.Via != "" {
+			viaState = plan.Via == "mergestate"
+		}
 		ev["via"] = map[bool]string{true: "mergestate", false: "mergedb"}[viaState]
 		ev["res"] = Guard(func() string {
 			if viaState {
@@ -352,6 +356,43 @@ func RunSync(w *tr.Writer, st *SyncStats, tid int, plan SyncPlan, rnd *rand.Rand
 		st.Events++
 	}
 	st.Distinct[ItemsKey(items)+"|"+string(bytes.Join(absentPos, []byte(",")))] = true
+}
+
+// GenSyncPlanBig draws a large-scope plan: several hundred keys over the full nibble alphabet (wide branches), most of the
+// nodes below the root absent: the donor store holds several hundred nodes (more than any batch size of the stores).
+func GenSyncPlanBig(r *rand.Rand, via string) SyncPlan {
+	var plan SyncPlan
+	plan.Via = via
+	m := map[string]string{}
+	n := 300 + r.Intn(200)
+	for len(m) < n {
+		k := make([]byte, 6)
+		for i := range k {
+			k[i] = "0123456789abcdef"[r.Intn(16)]
+		}
+		m[string(k)] = fmt.Sprintf("v%d", len(m))
+	}
+	keys := make([]string, 0, len(m))
+	for k := range m {
+		keys = append(keys, k)
+	}
+	sort.Strings(keys)
+	seen := map[string]bool{}
+	for _, k := range keys {
+		b, _ := json.Marshal([]any{bridge.Chars([]byte(k)), m[k]})
+		plan.Init = append(plan.Init, b)
+		for l := 1; l <= len(k); l++ {
+			if p := k[:l]; !seen[p] && r.Intn(100) < 70 {
+				seen[p] = true
+				plan.Absent = append(plan.Absent, bridge.Chars([]byte(p)))
+			}
+		}
+	}
+	plan.BuildVers = []int64{1}
+	if r.Intn(2) == 0 {
+		plan.RepairVer = 9
+	}
+	return plan
 }
 
 // GenSyncPlan draws a random content and removal set.
